@@ -346,7 +346,7 @@ func init() {
 		Jobs: func(tier string) []JobSpec {
 			var js []JobSpec
 			add := func(name string, params map[string]int64) {
-				js = append(js, JobSpec{Name: name, Harness: "root", Func: "verifHarnessC03", Params: params, Scale: scaleDF(32), ReplayRestore: true, ConcCap: 200})
+				js = append(js, JobSpec{Name: name, Harness: "root", Func: "verifHarnessCrash", Params: params, Scale: scaleDF(32), ReplayRestore: true, ConcCap: 200})
 			}
 			base := p("pool", 2, "klen", 1, "vlens", 2, "index", 3, "shards", 1, "powerloss", 1)
 			if tier == "quick" {
@@ -361,7 +361,7 @@ func init() {
 				add("batch-k3", merge(base, p("k", 3, "ops", opPut|opDelete|opBatch, "vlens", 1, "bsync", 1, "dfs_lo", 100, "dfs_hi", 180)))
 				add("btree-k3", merge(base, p("k", 3, "ops", opPut|opDelete|opSync, "index", 1, "shards", 2, "after", 1)))
 			}
-			js = append(js, JobSpec{Name: "witness", Harness: "root", Func: "verifHarnessC03", Params: merge(base, p("k", 1, "ops", opPut, "witness", 1)), Scale: scaleDF(32), Witness: true})
+			js = append(js, JobSpec{Name: "witness", Harness: "root", Func: "verifHarnessCrash", Params: merge(base, p("k", 1, "ops", opPut, "witness", 1)), Scale: scaleDF(32), Witness: true})
 			return js
 		},
 		Assumptions: []string{"crash points: before every mutating file-system call issued after Open (create, write, sync, close, truncate, rename, remove) and after the last one",
@@ -373,6 +373,77 @@ func init() {
 			"thorough": "K=3 everywhere, value length 25 (multi-chunk), Sync batches, B-tree",
 		},
 		Outside: "torn sectors / garbage tails (C12 covers damaged bytes); mmap power loss; crashes during Open itself; I/O errors",
+		Stubs:   stubsCommon,
+	})
+}
+
+func init() {
+	crashAssumptions := []string{"crash points: before every mutating file-system call issued after the first Open (create, write, sync, close, truncate, rename, each unlink of RemoveAll in every order) and after the last one",
+		"power loss keeps a prefix of every file: a solver-chosen length between the last synced length and the current length; no garbage; directory operations are durable in issue order",
+		"standard I/O only for crash images", "blockSize scaled to 32 (Level 1)"}
+	register(&CheckDef{
+		ID:    "C04",
+		Title: "A batch is all-or-nothing and, once committed, durable",
+		Reach: []string{"done", "crashed-mid-workload", "batch", "batch-with-rotation", "power-loss", "sync-batch-required-durable", "merge-finished"},
+		Jobs: func(tier string) []JobSpec {
+			var js []JobSpec
+			add := func(name string, params map[string]int64) {
+				js = append(js, JobSpec{Name: name, Harness: "root", Func: "verifHarnessCrash", Params: params, Scale: scaleDF(32), ReplayRestore: true, ConcCap: 300})
+			}
+			base := p("prop", 4, "pool", 2, "klen", 1, "vlens", 1, "index", 3, "shards", 1, "powerloss", 1)
+			if tier == "quick" {
+				add("overflow-bmax3", merge(base, p("preput", 1, "k", 1, "ops", opBatch, "bmax", 3, "dfs_lo", 120, "dfs_hi", 160, "powerloss", 0)))
+				add("overflow-bmax2-powerloss", merge(base, p("k", 1, "ops", opBatch, "bmax", 2, "dfs_lo", 110, "dfs_hi", 150, "after", 1)))
+				add("sync-batch", merge(base, p("k", 1, "ops", opBatch, "bmax", 2, "bsync", 1)))
+				add("batch-then-put", merge(base, p("k", 2, "ops", opBatch|opPut, "bmax", 1, "after", 1)))
+				add("batch-merge-restart", merge(base, p("k", 1, "ops", opBatch, "bmax", 2, "tailops", opMerge|opRestart, "after", 1, "powerloss", 0)))
+			} else {
+				add("overflow-bmax3-pre2", merge(base, p("preput", 2, "k", 1, "ops", opBatch, "bmax", 3, "dfs_lo", 100, "dfs_hi", 220, "after", 1, "vlens", 2)))
+				add("sync-batch-bmax3", merge(base, p("preput", 1, "k", 1, "ops", opBatch, "bmax", 3, "bsync", 1, "dfs_lo", 100, "dfs_hi", 200)))
+				add("two-batches", merge(base, p("k", 2, "ops", opBatch, "bmax", 2, "after", 1)))
+				add("batch-put-merge-restart", merge(base, p("k", 2, "ops", opBatch|opPut, "bmax", 2, "tailops", opMerge|opRestart, "after", 1, "powerloss", 0, "crash2", 1)))
+				add("btree-overflow", merge(base, p("preput", 1, "k", 1, "ops", opBatch, "bmax", 3, "dfs_lo", 100, "dfs_hi", 200, "index", 1, "shards", 2)))
+			}
+			js = append(js, JobSpec{Name: "witness", Harness: "root", Func: "verifHarnessCrash", Params: merge(base, p("k", 1, "ops", opBatch, "bmax", 1, "witness", 1)), Scale: scaleDF(32), Witness: true, ConcCap: 300})
+			return js
+		},
+		Assumptions: crashAssumptions,
+		Bounds: map[string]string{
+			"quick":    "0-1 plain puts, one batch of 1-3 staged puts/deletes over 2 symbolic keys (repeats included), DataFileSize symbolic in [100,200] so the batch is flushed in pieces across files, BatchOptions.Sync on/off; crash before every FS op of staging and Commit; process death and power loss with every tail length; later Put, Merge, restart; visibility checked live right after Commit",
+			"thorough": "two batches, 2 pre-puts, second crash during recovery, B-tree",
+		},
+		Outside: "batches of more than 3 staged ops; batch id collisions across processes; I/O errors; mmap crash images",
+		Stubs:   stubsCommon,
+	})
+	register(&CheckDef{
+		ID:    "C07",
+		Title: "A crash during merge or during merge adoption never loses or resurrects data",
+		Reach: []string{"done", "crashed-in-merge", "crashed-in-restart", "crashed-during-recovery", "merge-finished"},
+		Jobs: func(tier string) []JobSpec {
+			var js []JobSpec
+			add := func(name string, params map[string]int64) {
+				js = append(js, JobSpec{Name: name, Harness: "root", Func: "verifHarnessCrash", Params: params, Scale: scaleDF(32), ReplayRestore: true})
+			}
+			base := p("prop", 7, "pool", 2, "klen", 1, "vlens", 1, "index", 3, "shards", 1, "tailops", opMerge|opRestart, "after", 1, "crash2", 1)
+			if tier == "quick" {
+				add("k2-rot", merge(base, p("k", 2, "ops", opPut|opDelete, "dfs_lo", 60, "dfs_hi", 100)))
+				add("k3-nocrash2", merge(base, p("k", 3, "ops", opPut|opDelete, "dfs_lo", 60, "dfs_hi", 130, "crash2", 0)))
+				add("k1-batch", merge(base, p("k", 1, "ops", opBatch, "bmax", 2, "dfs_lo", 100, "dfs_hi", 160)))
+			} else {
+				add("k3-rot", merge(base, p("k", 3, "ops", opPut|opDelete, "dfs_lo", 60, "dfs_hi", 130)))
+				add("k2-batch", merge(base, p("k", 2, "ops", opPut|opBatch, "bmax", 2, "dfs_lo", 60, "dfs_hi", 160)))
+				add("k2-permute", merge(base, p("k", 2, "ops", opPut|opDelete, "vlens", 2, "dfs_lo", 60, "dfs_hi", 100, "permute", 1)))
+				add("k2-powerloss", merge(base, p("k", 2, "ops", opPut|opDelete, "dfs_lo", 60, "dfs_hi", 100, "powerloss", 1, "crash2", 0)))
+			}
+			js = append(js, JobSpec{Name: "witness", Harness: "root", Func: "verifHarnessCrash", Params: merge(base, p("k", 1, "ops", opPut, "witness", 1, "crash2", 0)), Scale: scaleDF(32), Witness: true})
+			return js
+		},
+		Assumptions: crashAssumptions,
+		Bounds: map[string]string{
+			"quick":    "history of K=1-3 ops (Put/Delete/batch) with DataFileSize symbolic so the merge input has 1-4 files, then Merge, then a restart that adopts it; crash (process death) before every FS op of the history, of Merge (mkdir, create, write, close, marker), and of adoption (each rename, hint rename, each unlink of RemoveAll in every order); a second crash before every FS op of the recovering Open; then a final Open, one Put and a clean restart",
+			"thorough": "K=3, batches, every map iteration order, power loss instead of process death",
+		},
+		Outside: "more than two crashes; power loss during merge in quick tier (merge output is not fsynced: see DESIGN findings); I/O errors",
 		Stubs:   stubsCommon,
 	})
 }
